@@ -198,11 +198,16 @@ def run_circuit(case):
         if isinstance(kind, str):
             continue
         w = sp.nsimplify(sp.sympify(kind))
-        if not w.is_Rational:
-            if case.get('omega_subs'):
-                # symbolic angular frequency: report the phasors with the symbol replaced by a rational value
-                wv = sp.Rational(case['omega_subs'])
-                ssub = {sy: wv for sy in w.free_symbols}
+        if not w.is_Rational or case.get('sym_subs'):
+            if case.get('omega_subs') or (case.get('sym_subs') and w.is_Rational):
+                # symbolic angular frequency / symbolic component or source values: report the phasors with the
+                # symbols replaced by rational values (compared by the search oracle only)
+                if w.is_Rational:
+                    wv, ssub = w, {}
+                else:
+                    wv = sp.Rational(case['omega_subs'])
+                    ssub = {sy: wv for sy in w.free_symbols}
+                symvals = {k_: sp.Rational(v_) for k_, v_ in case.get('sym_subs', {}).items()}
                 out = {'symbolic': str(kind), 'V': {}, 'I': {}}
                 for nm in names:
                     for attr, dst in (('V', out['V']), ('I', out['I'])):
@@ -212,7 +217,13 @@ def run_circuit(case):
                             for k, v in sup.items():
                                 if not isinstance(k, str) and sp.simplify(sp.sympify(k) - sp.sympify(kind)) == 0:
                                     val = v
-                            dst[nm] = gq(val, ssub) if val is not None else '0/1,0/1'
+                            if val is not None:
+                                vs_ = sp.sympify(val.sympy)
+                                ssub2 = dict(ssub)
+                                ssub2.update({sy: symvals[sy.name] for sy in vs_.free_symbols if sy.name in symvals})
+                                dst[nm] = gq(vs_, ssub2)
+                            else:
+                                dst[nm] = '0/1,0/1'
                         except Exception as e:
                             dst[nm] = {'error': type(e).__name__ + ': ' + str(e)[:100]}
                 res['ac'][q(wv)] = out
@@ -313,7 +324,7 @@ def run_circuit(case):
                 except Exception as e:
                     out['transfer'] = {'error': type(e).__name__ + ': ' + str(e)[:150]}
         res['ac'][ws] = out
-    if case.get('want_time', True) and not case.get('omega_subs'):
+    if case.get('want_time', True) and not case.get('omega_subs') and not case.get('sym_subs'):
         oms = list(res['ac'].keys())
         for nm in names[:case.get('ntime', 4)]:
             try:
@@ -331,6 +342,30 @@ def run_phasor(case):
     tt = p.time().sympy
     res['time'] = time_parts(tt, [res['omega']]) if res['omega'] else None
     res['time_str'] = str(tt)
+    # search-oracle part: the phasor is (coefficient of cos(w t)) - j (coefficient of sin(w t)) of the expanded sinusoid
+    if case.get('w'):
+        try:
+            from lcapy import expr as lexpr
+            orig = sp.expand(sp.expand_trig(lexpr(ex).sympy))
+            wv = sp.Rational(case['w'])
+            a_ = orig.coeff(sp.cos(wv * tsym))
+            b_ = orig.coeff(sp.sin(wv * tsym))
+            rest = sp.simplify(orig - a_ * sp.cos(wv * tsym) - b_ * sp.sin(wv * tsym))
+            if rest == 0 and w == wv:
+                d = sp.simplify(sp.expand_complex(sp.sympify(p.sympy) - (a_ - sp.I * b_)))
+                if d == 0:
+                    res['expected_ok'] = True
+                else:
+                    dv = d.subs({x: sp.Rational(3, 7) for x in d.free_symbols})
+                    res['expected_ok'] = abs(complex(sp.N(dv, 40))) < 1e-25
+                    res['expected'] = str(sp.simplify(a_ - sp.I * b_))
+                    res['got'] = str(p.sympy)
+            elif w != wv:
+                res['expected_ok'] = False
+                res['expected'] = 'omega %s' % wv
+                res['got'] = 'omega %s' % w
+        except Exception as e:
+            res['expected_error'] = type(e).__name__ + ': ' + str(e)[:100]
     # search-oracle part: sinusoid -> phasor -> time gives back the same sinusoid
     try:
         from lcapy import expr as lexpr
